@@ -90,6 +90,12 @@ fn cells(tier: &str) -> Vec<Value> {
             }
         }
     }
+    // many requestor streams on one topic, one request each, all in flight together
+    for comp in ["none", "zstd"] {
+        let k = 18usize;
+        v.push(json!({"cell": id, "calls": k, "stream_of_call": (0..k).collect::<Vec<_>>(), "reply_order": (0..k).rev().collect::<Vec<_>>(), "late_replies_for_the_rest": false, "reopen_streams_first": false, "compression": comp}));
+        id += 1;
+    }
     v
 }
 
@@ -327,7 +333,7 @@ pub async fn run(tier: &str, replaying: bool) -> ! {
     finish(
         rep,
         outs,
-        "every cell of: k concurrent request() calls (k<=3 quick, <=4 thorough) x every set partition of the calls over requestor streams (calls in one block share a stream through clones; every stream numbers its requests from 0) x every subset left unanswered x every permutation of the answered ones as reply order x (if something is unanswered) late replies after the timeout followed by a fresh request per stream x compression {none,gzip,zstd} (all three for k<=2, rotating above). The raw replier first collects all k requests, so all are in flight together. non-trivial = at least two concurrent calls",
+        "every cell of: k concurrent request() calls (k<=3 quick, <=4 thorough) x every set partition of the calls over requestor streams (calls in one block share a stream through clones; every stream numbers its requests from 0) x every subset left unanswered x every permutation of the answered ones as reply order x (if something is unanswered) late replies after the timeout followed by a fresh request per stream x compression {none,gzip,zstd} (all three for k<=2, rotating above); plus 18 requestor streams with one request each, answered in reverse order. The raw replier first collects all k requests, so all are in flight together. non-trivial = at least two concurrent calls",
         "replies are a pure function of the request payload, so a misdelivered reply is visible in the returned value",
         json!({"timeout_ms": TIMEOUT_MS}),
         replaying,
